@@ -458,6 +458,7 @@ func c20Attributes(c *Ctx) {
 }
 
 var c20Canaries = []Canary{
+	{Name: "r6-config-file-name-rewritten", ExpectKey: "C20.R4#config-file:name-passed-verbatim", Edits: []Edit{{File: "git/config.go", Find: "\n// SetFile sets the git config value for the key in the given configuration file\nfunc (c *Configuration) SetFile(file, key, val string) (string, error) {\n\treturn c.gitConfigWrite(\"--file\", file, \"--replace-all\", key, val)\n}\n\n// UnsetGlobalSection removes the entire named section from the global config\n", Repl: "\n// SetFile sets the git config value for the key in the given configuration file\nfunc (c *Configuration) SetFile(file, key, val string) (string, error) {\n\treturn c.gitConfigWrite(\"--file\", absConfigFile(file), \"--replace-all\", key, val)\n}\n\n// UnsetGlobalSection removes the entire named section from the global config\n"}, {File: "git/config.go", Find: "\n// UnsetFileSection removes the entire named section from the given configuration file\nfunc (c *Configuration) UnsetFileSection(file, key string) (string, error) {\n\treturn c.gitConfigWrite(\"--file\", file, \"--remove-section\", key)\n}\n\n// UnsetLocalKey removes the git config value for the key from the specified config file\n", Repl: "\n// UnsetFileSection removes the entire named section from the given configuration file\nfunc (c *Configuration) UnsetFileSection(file, key string) (string, error) {\n\treturn c.gitConfigWrite(\"--file\", absConfigFile(file), \"--remove-section\", key)\n}\n\n// absConfigFile resolves a configuration file named on the command line\n// against the caller's working directory. \"git config\" itself is run from\n// inside the Git directory, so a relative path would otherwise end up there\n// instead of where the user asked for it.\nfunc absConfigFile(file string) string {\n\tif abs, err := filepath.Abs(file); err == nil {\n\t\treturn abs\n\t}\n\treturn file\n}\n\n// UnsetLocalKey removes the git config value for the key from the specified config file\n"}}},
 	{Name: "r5-uninstall-touches-local-scope", ExpectKey: "C20.R4#section-removal-site", Edits: []Edit{{File: "commands/command_uninstall.go", Find: "\tif err := cmdInstallOptions().Uninstall(); err != nil {", Repl: "\tcmdInstallOptions().GitConfig.UnsetLocalSection(\"filter.lfs\")\n\tif err := cmdInstallOptions().Uninstall(); err != nil {"}}},
 	{Name: "install-ignores-force", ExpectKey: "C20.R1#Install", Edits: []Edit{{File: "lfs/hook.go", Find: "	if h.Exists() && !force {\n		tracerx.Printf(msg + \", upgrading...\")\n		return h.Upgrade()\n	}", Repl: "	if h.Exists() && !force && h.Type != \"pre-push\" {\n		tracerx.Printf(msg + \", upgrading...\")\n		return h.Upgrade()\n	}"}}},
 	{Name: "upgrade-writes-foreign", ExpectKey: "C20.R1#Upgrade:foreign-hook-kept", Edits: []Edit{{File: "lfs/hook.go", Find: "	if !upgradable || match {\n		return nil\n	}\n\n	return h.write()", Repl: "	if !upgradable && match {\n		return nil\n	}\n\n	return h.write()"}}},
